@@ -64,6 +64,10 @@ Proof.
   destruct (d' =? native) eqn:E; [|reflexivity]. destruct Hn as [Hn|Hn]; [lia|]. rewrite Hn. reflexivity.
 Qed.
 
+Lemma view_of_aset_same : forall toks d v now pr ps ys n ubis,
+  view_of (mkCst now pr ps ys n ubis (aset d v toks)) d = if d =? native then mkTview (v_tok v) n (v_bound v) else v.
+Proof. intros. unfold view_of. cbn [k_toks k_native]. rewrite aget_aset_same. reflexivity. Qed.
+
 Lemma view_ok_ext : forall k k' s s' d, k_toks k' = k_toks k -> k_native k' = k_native k ->
   s_reg s' = s_reg s -> s_bank s' = s_bank s -> view_ok k s d -> view_ok k' s' d.
 Proof.
@@ -600,4 +604,143 @@ Proof.
   - reflexivity.
   - unfold distr_end, set_snaps. cbn [s_psnap]. rewrite P1, P4. destruct (_ || _); [right|left]; reflexivity.
   - unfold distr_end, set_snaps. cbn [s_ysnap]. rewrite P2, P4. destruct (_ || _); [right|left]; reflexivity.
+Qed.
+
+Lemma tok_eta : forall t t', tok_same t t' -> t' = with_supply t (t_supply t').
+Proof. intros [a b c d e f] [a' b' c' d' e' f'] (H1 & H2 & H3 & H4 & H5). cbn in *. subst. reflexivity. Qed.
+
+Lemma sound_block : forall k s dt, rel k s -> inv s -> 0 <= dt -> step_sound k s (OBlock dt).
+Proof.
+  intros k s dt R I Hdt. pose proof R as (R1 & R2 & R3 & R4 & R5 & R6 & R7).
+  destruct I as (Icap & Inat & Irate & Iper & Imax & Isnap & Itime & Ipools & Idom & Isort).
+  destruct Hcf as (_ & _ & Hamt & Hdue & _).
+  unfold step_sound, model_obs.
+  destruct (block_parts cf s dt) as [[[s1 s2] s3]| |] eqn:E; cbn [res_of fst snd check_step Z.eqb negb].
+  2,3: (split; [reflexivity|exact R]).
+  assert (VM : valid_monetary s dt) by (unfold valid_monetary; repeat split; try assumption; lia).
+  destruct (c13_chk_sound_block_lemma cf s dt s1 s2 s3 VM E) as (C1 & C2).
+  assert (PO : Forall (ubi_pay_ok cf) (s_ubis s)).
+  { eapply Forall_impl; [|exact Idom]. intros u (A & L & P). unfold ubi_pay_ok. repeat split; try assumption; left; assumption. }
+  destruct (block_ubi_payout_lemma cf s dt s1 s2 s3 E Ipools PO) as (C3 & _).
+  destruct (block_shape _ _ _ _ _ E) as (T & Sp & Sn & Su & Sps & Sys).
+  destruct (block_parts_view _ _ _ _ _ _ E) as (VP & _ & _ & N3).
+  destruct (VP native) as (Off & Tk).
+  destruct (aget native (s_reg s)) as [x|] eqn:Ex; [|congruence].
+  destruct (Tk x eq_refl) as (x' & Ex' & Same).
+  destruct (R7 native) as (V1 & V2 & V3). rewrite Ex in V1.
+  assert (Ereg : reg_native s3 = t_supply x') by (unfold reg_native; rewrite Ex'; reflexivity).
+  assert (Eoff : t_supply x' - nat_supply s2 = t_supply x - nat_supply s).
+  { unfold offset, reg_supply in Off. rewrite Ex, Ex' in Off. unfold nat_supply in *. rewrite <- N3. exact Off. }
+  split.
+  - rewrite R1, R2, R3, R4, R5, R6.
+    rewrite (cl_true _ _ C1). cbn [app]. rewrite (cl_true _ _ C2). cbn [app].
+    rewrite cl_true by lia. cbn [app].
+    rewrite cl_true. 2:{ apply andb_true_intro. split; apply Bool.orb_true_iff.
+                         - destruct Sps as [->| ->]; [left|right]; apply snap_eqb_refl.
+                         - destruct Sys as [->| ->]; [left|right]; apply snap_eqb_refl. }
+    cbn [app]. apply cl_true. rewrite V1, Ereg. cbn [reg_supply_of]. lia.
+  - rewrite V1. apply rel_intro; cbn [k_now k_params k_psnap k_ysnap k_native k_ubis];
+    [rewrite R1, Sn; reflexivity|congruence|reflexivity|reflexivity|symmetry; exact N3|reflexivity|].
+    intros d'. destruct (Z.eq_dec d' native) as [Ed|Ed].
+    + subst d'. unfold view_ok. rewrite view_of_aset_same. cbn [Z.eqb native v_tok v_bank v_bound].
+      split; [rewrite Ex', Ereg; f_equal; symmetry; apply tok_eta; exact Same|]. split; [unfold nat_supply in *; congruence|].
+      intros Hb. destruct (V3 Hb) as (t0 & Et0 & Hc0). exists x'. split; [exact Ex'|]. assert (Q : t0 = x) by congruence. subst t0.
+      destruct Same as (Sc & _). lia.
+    + destruct (T d' Ed) as (Tr & Ts). unfold view_ok.
+      rewrite (view_of_aset_other k native d' _ _ _ _ _ _ _ Ed (or_introl Ed)).
+      destruct (R7 d') as (W1 & W2 & W3). rewrite Tr, Ts. split; [exact W1|split; [exact W2|exact W3]].
+Qed.
+
+(* ---------------------------------------------------------------- every operation, then histories *)
+Lemma step_sound_all : forall k s o, rel k s -> inv s -> good_op o -> step_sound k s o.
+Proof.
+  intros k s o R I G. destruct o.
+  - apply sound_block; assumption.
+  - apply sound_params; assumption.
+  - apply sound_hardcap; assumption.
+  - apply sound_ubi_upsert; assumption.
+  - apply sound_ubi_remove; assumption.
+  - apply sound_upsert_msg; assumption.
+  - apply sound_prop_upsert; assumption.
+  - apply sound_mint_issue; assumption.
+  - apply sound_burn; assumption.
+  - apply sound_fee; assumption.
+Qed.
+
+(* the trace the model produces, in the harness format *)
+Fixpoint model_trace (s : st) (ops : list op) : list (op * obs) :=
+  match ops with
+  | [] => []
+  | o :: r => (o, snd (model_obs cf s o)) :: model_trace (fst (model_obs cf s o)) r
+  end.
+(* the well-formedness invariant holds at every state the run visits *)
+Fixpoint inv_along (s : st) (ops : list op) : Prop :=
+  match ops with
+  | [] => True
+  | o :: r => inv s /\ good_op o /\ inv_along (fst (model_obs cf s o)) r
+  end.
+
+Lemma chk_sound_lemma : forall ops s k i, rel k s -> inv_along s ops -> check_steps i k (model_trace s ops) = [].
+Proof.
+  induction ops as [|o r IH]; intros s k i R IA; [reflexivity|].
+  destruct IA as (I & G & IA'). cbn [model_trace check_steps].
+  pose proof (step_sound_all k s o R I G) as S. unfold step_sound in S.
+  destruct (model_obs cf s o) as [s' ob] eqn:EM. cbn [fst snd] in *.
+  destruct (check_step k o ob) as [cls k'] eqn:EC. cbn [fst snd] in S. destruct S as (S1 & S2). subst cls.
+  cbn [map app]. apply IH; assumption.
+Qed.
+End Sound.
+
+(* the initial checker state agrees with the initial model state of a case *)
+Lemma init_rel : forall t0 reg0 ubis0 pools0 i,
+  NoDup (map fst reg0) ->
+  rel (init_cst t0 reg0 ubis0 i) (init_state t0 reg0 ubis0 pools0 i).
+Proof.
+  intros t0 reg0 ubis0 pools0 i Hnd. apply rel_intro; try reflexivity.
+  intros d. unfold view_ok, view_of, init_cst, init_state, supply_of. cbn [k_toks k_native s_reg s_bank].
+  assert (G : forall l, NoDup (map fst l) ->
+            aget d (map (fun e : Z * tok => (fst e, mkTview (Some (snd e)) (if fst e =? native then i_supply i else 0)
+                                                       (if 0 <? t_cap (snd e) then t_cap (snd e) else 0))) l)
+            = option_map (fun t => mkTview (Some t) (if d =? native then i_supply i else 0) (if 0 <? t_cap t then t_cap t else 0)) (aget d l)).
+  { induction l as [|[k0 t0'] l IH]; intros Hl; [reflexivity|]. cbn [map aget fst snd]. inversion Hl; subst.
+    destruct (k0 =? d) eqn:E; [assert (k0 = d) by lia; subst; reflexivity|apply IH; assumption]. }
+  rewrite (G reg0 Hnd). unfold zget. cbn [aget].
+  destruct (aget d reg0) as [t|] eqn:Et; cbn [option_map].
+  - destruct (d =? native) eqn:En; cbn [v_tok v_bank v_bound].
+    + split; [reflexivity|]. assert (d = native) by lia; subst d. rewrite Z.eqb_refl. split; [reflexivity|].
+      intros Hb. exists t. split; [reflexivity|]. destruct (0 <? t_cap t); lia.
+    + split; [reflexivity|]. replace (native =? d) with false by lia. split; [reflexivity|].
+      intros Hb. exists t. split; [reflexivity|]. destruct (0 <? t_cap t); lia.
+  - cbn [v_tok v_bank v_bound]. destruct (d =? native) eqn:En.
+    + assert (d = native) by lia; subst d. rewrite Z.eqb_refl. split; [reflexivity|split; [reflexivity|lia]].
+    + replace (native =? d) with false by lia. split; [reflexivity|split; [reflexivity|lia]].
+Qed.
+
+(* non-vacuity: a concrete well-formed state related to a checker state, and a one-block history *)
+Definition sound_state : st :=
+  mkSt 1700000000 5 (mkParams 180000000000000000 31557600 350000000000000000 7000000)
+       (mkSnap 1699990000 (Some 300000000000000)) (mkSnap 1699990000 (Some 300000000000000))
+       [(0, 300000000000000)] [(bkey 1 0, 1000000)] [(0, mkTok 0 0 0 false PREC 500000000000000000)]
+       [mkUbi 0 500000 2592000 0 0 true 0] [(0, 0)].
+Lemma sound_state_inv : inv sound_state.
+Proof.
+  unfold inv. split; [|split; [|split; [|split; [|split; [|split; [|split; [|split; [|split]]]]]]]].
+  - intros d t. cbn [s_reg sound_state aget]. destruct (0 =? d); [intros H; inversion H; subst; cbn; lia|discriminate].
+  - cbn. discriminate.
+  - cbn. lia.
+  - vm_compute. split; reflexivity.
+  - cbn. lia.
+  - intros a H. cbn in H. inversion H. lia.
+  - cbn. lia.
+  - intros p b. cbn [s_pools sound_state aget]. destruct (0 =? p); [intros H; inversion H; lia|discriminate].
+  - repeat constructor; cbn; lia.
+  - cbn. tauto.
+Qed.
+Lemma chk_sound_nonvacuous : forall cf, exists s ops, inv_along cf s ops /\ ops <> [] /\
+  rel (init_cst (s_now s) (s_reg s) (s_ubis s) (mkInit (nat_supply s) [] (s_params s) (s_psnap s) (s_ysnap s))) 
+      (init_state (s_now s) (s_reg s) (s_ubis s) (s_pools s) (mkInit (nat_supply s) [] (s_params s) (s_psnap s) (s_ysnap s))).
+Proof.
+  intros cf. exists sound_state, [OBlock 86400]. split; [|split; [discriminate|]].
+  - cbn [inv_along]. split; [exact sound_state_inv|]. split; [cbn; lia|exact I].
+  - apply init_rel. cbn. repeat constructor; cbn; tauto.
 Qed.
